@@ -256,7 +256,7 @@ def step (w : World) (line : String) : World × List String :=
     let name := (optOf a1 b!"name").getD b!"n1"
     let pid := ((optOf a1 b!"pid").bind Bytes.parseNat).getD 1
     -- every node has its own range of operation ids
-    let n0 := freshNodeAt role (clockStart + (((optOf a1 b!"pid").bind Bytes.parseNat).getD 0) * 1000000000000)
+    let n0 := freshNodeAt role w.node.clock
     let n := { n0 with addr := name, pid := pid }
     ({ node := n, oplog := {}, pump := opts.contains b!"pump", sup := opts.contains b!"sup" }, ["# reset"] ++ dumpNode n)
   | "SESS" =>
@@ -328,7 +328,10 @@ def step (w : World) (line : String) : World × List String :=
     let rx : List (XOp × Node) := if w.pump then (w.mstate.trace .restart).map (·, w.node) else []
     let w := if w.xtrace then { w with xlog := w.xlog ++ rx } else w
     let rxl := if w.xtrace then rx.map (xopStr ·.1) else []
-    match w.node.restart (freshNodeAt w.node.role w.node.clock) with
+    -- RESTART [role]: a real start-up begins as StartingUp; without an argument the role is kept
+    let role := if a1 = [] then w.node.role else if a1 = b!"startingup" then Role.startingUp else if a1 = b!"secoundary" then Role.secoundary else Role.primary
+    let fresh := { freshNodeAt role w.node.clock with addr := w.node.addr, pid := w.node.pid }
+    match ({ w.node with role := role } : Node).restart fresh with
     | some n =>
       -- the fresh node consumed two ticks before loading
       let m := if w.pump then
@@ -337,8 +340,9 @@ def step (w : World) (line : String) : World × List String :=
           if m.oplog.cur.length * opRecSize ≥ singleLogBytes then { m with oplog := { cur := [], rot := m.oplog.cur :: m.oplog.rot } } else m
         else w.mstate
       let n := { n with keysMap := m.keysMap }
-      ({ w with node := n, notices := [], mstate := m, replQueue := [] }, "# restarted" :: rxl ++ (if w.pump then dumpMeta n m else []) ++ dumpFs n.fs ++ dumpNode n)
-    | none => ({ w with node := { freshNodeAt w.node.role w.node.clock with fs := w.node.fs }, notices := [] }, ["R PANIC restart"])
+      ({ w with node := n, notices := [], mstate := m, replQueue := [], supQueue := [], links := [], linkOut := [] },
+       "# restarted" :: rxl ++ (if w.pump && !w.sup then dumpMeta n m else []) ++ (if w.sup then [] else dumpFs n.fs) ++ dumpNode n)
+    | none => ({ w with node := { fresh with fs := w.node.fs }, notices := [] }, ["R PANIC restart"])
   | "PUMP" =>
     let (w, out0, xs0) := pumpLoop w
     if w.sup then
@@ -459,14 +463,14 @@ def step (w : World) (line : String) : World × List String :=
   | "" => (w, [])
   | _ => (w, ["E bad-op"])
 
-partial def loop (serve : Bool) (h : IO.FS.Stream) (out : IO.FS.Stream) (ws : List (Nat × World)) : IO Unit := do
+partial def loop (serve : Bool) (h : IO.FS.Stream) (out : IO.FS.Stream) (ws : List (Nat × World)) (gclock : Nat := clockStart) : IO Unit := do
   let line ← h.getLine
   if line.isEmpty then return ()
   let l := String.ofList (line.toList.filter (· != '\n'))
   if l.startsWith "#" then
     out.putStrLn l
     if serve then out.putStrLn "."; out.flush
-    loop serve h out ws
+    loop serve h out ws gclock
   else
     -- `@<i> <op>` addresses node i of a cluster; everything else goes to node 1
     let (ix, op) : Nat × String :=
@@ -476,8 +480,11 @@ partial def loop (serve : Bool) (h : IO.FS.Stream) (out : IO.FS.Stream) (ws : Li
         | i :: rest => ((i.toNat?).getD 1, " ".intercalate rest)
         | [] => (1, l)
       else (1, l)
-    let w := (AL.get? ws ix).getD { node := freshNode .primary }
+    let w0 := (AL.get? ws ix).getD { node := freshNode .primary }
+    -- one clock for all the nodes of the process (operation ids are wall-clock time in the real code)
+    let w := { w0 with node := { w0.node with clock := max w0.node.clock gclock } }
     let (w', outs) := step w op
+    let gclock := max gclock w'.node.clock
     out.putStrLn s!"> {l}"
     -- dump lines (prefix "D ") are replaced by "D =" when identical to the previous dump
     let dump := outs.filter (·.startsWith "D ")
@@ -485,15 +492,15 @@ partial def loop (serve : Bool) (h : IO.FS.Stream) (out : IO.FS.Stream) (ws : Li
     for o in rest do out.putStrLn o
     if dump.isEmpty then
       if serve then out.putStrLn "."; out.flush
-      loop serve h out (AL.put ws ix w')
+      loop serve h out (AL.put ws ix w') gclock
     else if dump == w'.lastDump && !op.startsWith "RESET" then
       out.putStrLn "D ="
       if serve then out.putStrLn "."; out.flush
-      loop serve h out (AL.put ws ix w')
+      loop serve h out (AL.put ws ix w') gclock
     else
       for o in dump do out.putStrLn o
       if serve then out.putStrLn "."; out.flush
-      loop serve h out (AL.put ws ix { w' with lastDump := dump })
+      loop serve h out (AL.put ws ix { w' with lastDump := dump }) gclock
 
 def main (args : List String) : IO Unit := do
   let stdin ← IO.getStdin
